@@ -304,7 +304,7 @@ def run_batch(engine_name, opts, seed, runs, workers=None, chunk=40, deep=False,
             for v in r["violations"]:
                 if len(merged["violations"]) < max_viol_total:
                     merged["violations"].append(v)
-            if progress and done % 50 == 0:
+            if progress and done % max(50, len(jobs) // 20) == 0:
                 progress(done, len(jobs), merged)
     except TimeoutError:
         raise HarnessFailure("batch exceeded wall limit of %ss" % wall_limit_s)
